@@ -186,6 +186,22 @@ fn brief(r: &Result<Option<insim::Packet>, insim::Error>) -> String {
 
 const ALPHA16: [u8; 16] = [0, 1, 2, 3, 4, 5, 63, 64, 65, 127, 128, 250, 251, 254, 255, b'^'];
 
+fn counted_max_frames() -> Vec<(String, bool, Vec<u8>)> {
+    let mut out = vec![];
+    for compressed in [true, false] {
+        let codec = Codec::new(mode_of(compressed));
+        for c in crate::typed::counted() {
+            for n in [1usize, c.max] {
+                let Some(p) = (c.make)(n) else { continue };
+                if let Ok(Ok(b)) = guard(|| codec.encode(&p)) {
+                    out.push((format!("{} x{n} B1", c.kind), compressed, b.to_vec()));
+                }
+            }
+        }
+    }
+    out
+}
+
 fn frames(gen: &Gen) -> Vec<(String, bool, Vec<u8>)> {
     // B0 and B1 reference frames of every kind (both modes where representable), plus one-element
     // and two-element frames of every counted kind
@@ -247,7 +263,9 @@ pub fn sites(tier: Tier) -> Vec<Site> {
     ));
 
     // 2. mutation distance 1 from valid frames
-    let fr = Arc::new(frames(&gen));
+    let mut all_frames = frames(&gen);
+    all_frames.extend(counted_max_frames());
+    let fr = Arc::new(all_frames);
     let mut offs = vec![0u64];
     for f in fr.iter() {
         offs.push(offs.last().unwrap() + f.2.len() as u64 * 256);
@@ -259,7 +277,7 @@ pub fn sites(tier: Tier) -> Vec<Site> {
         sites.push(Site::new(
             "mutation-1",
             total_m1,
-            "every reference frame (73 kinds, B0 and B1, both modes) x every byte position x all 256 values, followed by a sentinel TINY",
+            "every reference frame (73 kinds, B0 and B1, plus every counted kind with 1 and the maximum number of elements; both modes) x every byte position x all 256 values, followed by a sentinel TINY",
             move |i, acc| {
                 let fi = match offs.binary_search(&i) {
                     Ok(x) => x,
